@@ -16,6 +16,7 @@ def run(check):
         T.run_cover(sub, "TRAV-COVER", "OperationTransformVisitor", {T.EXPR}, [T.excl_delete, T.excl_tpl_literal, T.excl_arrow], {"visit_mut_expr"}, block_override_ok=lambda tr, paths: True)
 
     check.guarded("TRAV-ROOT", root)
+    check.guarded("DELETE-KEPT", lambda c: T.rule_delete_kept(c, "DELETE-KEPT", "OperationTransformVisitor"))
     check.guarded("ORDER", X.rule_order)
     check.guarded("GROUP", X.rule_hoist_paren)
     check.guarded("IDENT-MODE", X.rule_ident_mode)
